@@ -80,7 +80,7 @@ pub fn case(tape: &[u32]) -> CaseOutcome {
     cfg.scoped_heavy = a.chance(1, 2);
     let program = if a.chance(1, 4) {
         // scoped-variable scenarios: scopes reached through list elements and stored links
-        let (prog, _) = super::c04::scenario(&mut t, false);
+        let (prog, _) = super::c04::scenario(&mut t, false, 30);
         let printed = crate::dsl::print_canonical(&prog);
         Program { gen: crate::gen::Generated { prog, globals: Default::default(), features: Default::default(), fault: None, fault_id: None, fault_pair: None }, printed }
     } else {
